@@ -1,6 +1,8 @@
 package main
 
 import (
+	"github.com/tidwall/geojson/geometry"
+	"github.com/tidwall/geojson"
 	"bufio"
 	"fmt"
 	"os"
@@ -49,6 +51,70 @@ func c16Race(args []string) {
 					fmt.Printf("MISMATCH %s: concurrent result differs from solo result\n  solo: %.300s\n  got:  %.300s\n", sc.Calls[i], solo[i], outs[i])
 					os.Exit(67)
 				}
+			}
+		}
+	}
+	// many distinct objects at once: package-level tables keyed by an object's
+	// parameters only go wrong when different objects meet in one slot. 1024
+	// circles and 256 long lines, every goroutine walking the whole pool with
+	// polygon-path / index-path calls; each answer must be the run-alone one.
+	{
+		fmt.Printf("SCENARIO many-objects storm\n")
+		type ent struct {
+			o, probe geojson.Object
+			solo     string
+		}
+		mk := func() []ent {
+			var es []ent
+			for i := 0; i < 1024; i++ {
+				c := geometry.Point{X: -160 + 10.25*float64(i%32), Y: -62 + 3.875*float64(i/32)}
+				es = append(es, ent{o: geojson.NewCircle(c, 1000*float64(1+i%9), 64),
+					probe: geojson.NewRect(geometry.Rect{Min: geometry.Point{X: c.X - 0.0025, Y: c.Y - 0.0025}, Max: geometry.Point{X: c.X + 0.0025, Y: c.Y + 0.0025}})})
+			}
+			for i := 0; i < 256; i++ {
+				var ps []geometry.Point
+				for k := 0; k < 70; k++ {
+					ps = append(ps, geometry.Point{X: float64(i) + float64(k%10)*0.01, Y: float64(k/10)*0.01 + float64(k%2)*0.003})
+				}
+				es = append(es, ent{o: geojson.NewLineString(geometry.NewLine(ps, nil)), probe: geojson.NewPoint(ps[35])})
+			}
+			return es
+		}
+		ask := func(e ent) string {
+			return fmt.Sprint(e.o.Rect(), e.o.Contains(e.probe), e.o.Intersects(e.probe), e.probe.Within(e.o), e.o.Valid())
+		}
+		ref := mk()
+		for i := range ref {
+			ref[i].solo = ask(ref[i])
+		}
+		passes := 3
+		if thorough {
+			passes = 20
+		}
+		for pass := 0; pass < passes; pass++ {
+			pool := mk() // fresh objects in every pass
+			var wg sync.WaitGroup
+			bad := make(chan string, 64)
+			for g := 0; g < 16; g++ {
+				wg.Add(1)
+				go func(g int) {
+					defer wg.Done()
+					for k := range pool {
+						i := (k*7 + g*61) % len(pool)
+						if got := ask(pool[i]); got != ref[i].solo {
+							select {
+							case bad <- fmt.Sprintf("object %d: solo %.200s got %.200s", i, ref[i].solo, got):
+							default:
+							}
+						}
+					}
+				}(g)
+			}
+			wg.Wait()
+			close(bad)
+			for b := range bad {
+				fmt.Printf("MISMATCH many-objects storm: concurrent result differs from solo result\n  %s\n", b)
+				os.Exit(67)
 			}
 		}
 	}
